@@ -1693,3 +1693,14 @@ def _functools_partial(I, args, kwargs):
     call._pyvc_native = True
     call.partial_of = (f, pre, pkw)
     return call
+
+
+@lib("statsmodels.tsa.holtwinters.ExponentialSmoothing")
+def sm_exponential_smoothing(I, args, kwargs):
+    """statsmodels ExponentialSmoothing(endog, **options): recorded constructor call; .fit() returns an opaque fitted model"""
+    USED.add("statsmodels ExponentialSmoothing: external model, constructor call recorded (options not interpreted)")
+    o = AbstractObj("statsmodels ExponentialSmoothing", isa=("ExponentialSmoothing",))
+    o.ctor = ("statsmodels.tsa.holtwinters.ExponentialSmoothing", list(args), dict(kwargs))
+    I.ctx.trace.append(Event(o, "__init__", list(args), dict(kwargs), o, getattr(I.ctx, "loop_k", None)))
+    o.results = {"fit": lambda I2, obj, ev: Opaque("fitted statsmodels model", prov=("fit", obj))}
+    return o
